@@ -8,9 +8,11 @@ The library is supposed to satisfy this property:
 
 $(cat /tmp/prop_$ID.txt)
 
-Task: produce TWO different, independent source changes to the library (non-test .go files in $WT) that each BREAK this property while the module still compiles and its existing test suite still passes. Each change should look like a plausible regression or refactoring slip a maintainer could make (an off-by-one, a dropped check, a wrong field, a reordered step, a condition inverted in one branch, state not reset, ...), and it should need something SPECIFIC to manifest: a particular interleaving, a fault or crash at a particular point, a multi-step sequence of operations, an unusual input or size, or two cooperating sites that each look fine alone - NOT something ordinary use would expose at once. Do not add obviously malicious code, do not touch *_test.go files, keep each change small (a few lines).
+Task: produce ${NCH:-TWO} different, independent source changes to the library (non-test .go files in $WT) that each BREAK this property while the module still compiles and its existing test suite still passes. Each change should look like a plausible regression or refactoring slip a maintainer could make (an off-by-one, a dropped check, a wrong field, a reordered step, a condition inverted in one branch, state not reset, ...), and it should need something SPECIFIC to manifest: a particular interleaving, a fault or crash at a particular point, a multi-step sequence of operations, an unusual input or size, or two cooperating sites that each look fine alone - NOT something ordinary use would expose at once. Do not add obviously malicious code, do not touch *_test.go files, keep each change small (a few lines).
 
-For each change N (1 and 2):
+${EXTRA:-}
+
+For each change N (1, 2, ...):
  1. Start from a clean tree (git -C $WT checkout -- . && git -C $WT clean -fdq -e out) and apply only that change.
  2. Check it compiles and the existing suite passes: cd $WT && GOFLAGS=-mod=mod GOPROXY=off go build ./... && GOFLAGS=-mod=mod GOPROXY=off go test -vet=off -count=1 ./... 2>&1 | tail -30   (takes ~40 s; network is unavailable; a few packages have no tests). If a test fails, choose a different change.
  3. Write a demonstration: a NEW Go test file (e.g. $WT/<pkg>/zz_demoN_test.go, using only the standard library and the module's own packages) that FAILS with the change applied and PASSES on the clean tree. Run it both ways to confirm (go test -vet=off -count=1 -run <Name> ./<pkg>/).
